@@ -533,9 +533,7 @@ theorem peerForShard_spec (s : Sched) (hnd : s.peers.Nodup) (hlen : s.peers.leng
     unfold Sched.peerForShard
     have : ¬ i ≥ s.total := by omega
     simp only [this, if_false, hpi]
-    congr 1
-    rw [List.getD_eq_getElem?_getD, List.getElem?_eq_getElem (by split <;> omega)]
-    rfl
+    rw [List.getElem?_eq_getElem (by split <;> omega)]
   have range : ∀ i q, s.peerForShard pub i = .ok q → i < s.total := by
     intro i q h
     unfold Sched.peerForShard at h
@@ -567,37 +565,24 @@ theorem flatten_length_const (s : Nat) : ∀ l : List Bytes, (∀ x ∈ l, x.len
     simp only [List.flatten_cons, List.length_append, this, h a (by simp), List.length_cons]
     rw [Nat.add_mul]; omega
 
-/-- `GoSized` holds for every message below 2^50 bytes (a petabyte) in every configuration the
-GF(2^8) codec accepts. -/
+/-- `GoSized` holds for every message below 2^40 bytes (a terabyte) in every configuration the
+codec accepts (up to 65536 shards). -/
 theorem goSized_of_small (rs : RS) (msg : Bytes) (k p : Nat) (hl : RSLaws rs k p) (hin : PadInput msg k)
-    (hok : rsNewOk k p = true) (hsmall : msg.length < 2 ^ 50) : GoSized rs msg k p := by
-  obtain ⟨s, hs, hlen, hsize, hdlen, hdsize, hflat⟩ := encOf_spec rs msg k p hl hin
+    (hok : rsNewOk k p = true) (hsmall : msg.length < 2 ^ 40) : GoSized rs msg k p := by
+  obtain ⟨s, hs, hlen, hsize, hdlen, hdsize, _, hsle⟩ := encOf_spec rs msg k p hl hin
   obtain ⟨z, hp, _, hz⟩ := pad_facts msg k hin
   have hv := putUvarint_length_le_ten (UInt64.ofNat msg.length)
-  have hkp : k + p ≤ 256 := by
-    simp only [rsNewOk, Bool.and_eq_true, decide_eq_true_eq] at hok; exact hok.2
+  have hkp : k + p ≤ 65536 := by
+    simp only [rsNewOk, Bool.and_eq_true, Bool.or_eq_true, decide_eq_true_eq] at hok
+    rcases hok.2 with h | h <;> omega
   have hpadlen : (pad msg k).length ≤ msg.length + 10 + 2 * k := by
     rw [hp]; simp only [List.length_append, List.length_replicate]; omega
-  -- the data shards together are the padded message
-  have hd := flatten_length_const s _ hdsize
-  have hdflat : (splitData (pad msg k) k p).flatten = pad msg k := by
-    have hdvd : k ∣ (pad msg k).length := by
-      obtain ⟨q, hq⟩ := pad_length_dvd msg k hin
-      exact ⟨2 * q, by rw [hq]; simp [Nat.mul_comm, Nat.mul_left_comm]⟩
-    have hne : pad msg k ≠ [] := by
-      intro h; have := pad_ne_nil msg k; rw [h] at this; simp at this
-    exact (splitData_spec (pad msg k) k p hin.1 hdvd hne).2.2.1
-  rw [hdflat, hdlen] at hd
   have hall := flatten_length_const s _ hsize
   unfold GoSized
   rw [hall, hlen]
-  -- s ≤ k * s = padded length
-  have hk := hin.1
-  have hs_le : s ≤ (pad msg k).length := by
-    rw [hd]; exact Nat.le_mul_of_pos_left s hk
-  have h1 : (k + p) * s ≤ 256 * s := Nat.mul_le_mul_right s hkp
-  have h2 : s ≤ 2 ^ 50 + 10 + 512 := by omega
-  have h3 : 256 * s ≤ 256 * (2 ^ 50 + 10 + 512) := Nat.mul_le_mul_left 256 h2
+  have h1 : (k + p) * s ≤ 65536 * s := Nat.mul_le_mul_right s hkp
+  have h2 : s ≤ 2 ^ 40 + 10 + 131072 + 63 := by omega
+  have h3 : 65536 * s ≤ 65536 * (2 ^ 40 + 10 + 131072 + 63) := Nat.mul_le_mul_left 65536 h2
   omega
 
 /-- The repetition code for `(k, p) = (1, 1)` (a committee of three peers: what klauspost computes
